@@ -508,6 +508,12 @@ unsafe fn dispose_general_node<T: RcObject>(
             let next_ref = next_ptr.deref();
             let link_epoch = next_ptr.high_tag() as u32;
 
+            // The cascade into an earlier edge may have run for many epochs (this thread is
+            // re-pinned on the way). A stamp written meanwhile lies outside the window that was
+            // built on entry and would be ordered as the oldest one, so order the stamps of each
+            // edge in a window anchored at the present epoch.
+            let modu: Modular<EPOCH_WIDTH> = Modular::new(global_epoch() as isize + 1);
+
             // Decrement next node's strong count and update its epoch.
             let next_cnt = loop {
                 #[cfg(feature = "circ_verif")]
